@@ -20,7 +20,7 @@ FUNCS = ['bitvector.bitblast', 'bitvector.Nodes.*.flatten', 'bitvector.flatten_c
          'bitvector.restoring_divider', 'bitvector._restoring_divider', 'bitvector.abs_',
          'bitvector._negate_if', 'bitvector.ite_function', 'bitvector.ite_connective',
          'bitvector.equalize_width', 'bitvector.sign_extension', 'bitvector.var_to_twos_complement',
-         'bitvector.int_to_twos_complement', 'bitvector.dom_to_width', 'fol.Context.add_expr',
+         'bitvector.int_to_twos_complement', 'bitvector.dom_to_width', 'fol.Context.add_expr', 'fol.Context.to_bdd',
          'fol.Context.define', 'symbolic.bdd.add_expr']
 MAXW = 28          # intermediate widths kept below the 32-bit ALU limit
 SOLVER_MS = 120000
@@ -155,7 +155,8 @@ def check_cases(cases):
                 u = ctx.add_expr(s, with_ops=True)
             else:
                 flat = bv.bitblast(s, table)
-                u = ctx.add_expr(s)
+                u = ctx.to_bdd(s)          # documented synonym of add_expr; the exported node is the one compared below
+                assert u == ctx.add_expr(s), 'to_bdd and add_expr return different nodes for the same formula'
         except Exception as e:  # noqa
             sig = _signature('accept', tree, table, e)
             out.append(core.res(
@@ -388,6 +389,46 @@ def construct_cases():
     return cs
 
 
+def _double_prime(t, inside=False, defs=None):
+    """True if some primed identifier (or prime operator) occurs under a prime operator, also through LET names."""
+    defs = defs or {}
+    if not isinstance(t, tuple):
+        return False
+    k = t[0]
+    if k in ('var', 'bvar'):
+        return inside and bool(t[2])
+    if k in ('ref', 'bref'):
+        return inside and defs.get(t[1], False)
+    if k in ('aprime', 'bprime'):
+        return inside or _double_prime(t[1], True, defs)
+    if k == 'let':
+        d2 = dict(defs)
+        for nm, e in t[1]:
+            if _double_prime(e, inside, d2):
+                return True
+            d2[nm] = _has_prime(e, d2)
+        return _double_prime(t[2], inside, d2)
+    return any(_double_prime(c, inside, defs) for c in t[1:] if isinstance(c, (tuple, list)) and c and isinstance(c, tuple))
+
+
+def _has_prime(t, defs):
+    if not isinstance(t, tuple):
+        return False
+    k = t[0]
+    if k in ('var', 'bvar'):
+        return bool(t[2])
+    if k in ('ref', 'bref'):
+        return defs.get(t[1], False)
+    if k in ('aprime', 'bprime'):
+        return True
+    if k == 'let':
+        d2 = dict(defs)
+        for nm, e in t[1]:
+            d2[nm] = _has_prime(e, d2)
+        return any(d2[nm] for nm, _ in t[1]) and _has_prime(t[2], d2) or _has_prime(t[2], d2)
+    return any(_has_prime(c, defs) for c in t[1:] if isinstance(c, tuple))
+
+
 def random_cases(n, seed, maxw, depth):
     """Seeded generator over the documented first-order grammar."""
     from vlib import sem
@@ -472,6 +513,8 @@ def random_cases(n, seed, maxw, depth):
             return ('bvar', rnd.choice(bools), False)
 
         tree = gen_b(depth, [], [])
+        if _double_prime(tree):
+            continue          # a prime applied to an expression that already mentions a primed identifier has no meaning
         try:
             if sem.max_width(tree, table) >= MAXW:
                 continue
